@@ -115,6 +115,8 @@ inductive CacheKind where
 
 inductive Fault where
   | behave | miss | lieExists | failGet | forget
+  /-- answers (exists: yes; get: failure) without even looking at the request: no fingerprint is computed -/
+  | lieBlind
   deriving DecidableEq, Repr, Inhabited
 
 structure Env where
